@@ -3,10 +3,11 @@
 #include "base.h"
 
 // data spec: {"k":kind,"n":len,"s":seed,"p":param}
-enum DataKind { DK_RANDOM = 0, DK_SYM4, DK_PERIODIC, DK_ZEROS, DK_FF, DK_LONGREP, DK_TEXT, DK_MIXED, DK_RUNS, DK_FARCOPY, DK_SKEW, DK_ADLERMAX, DK_LITCOPY, DK_NKINDS };
+enum DataKind { DK_RANDOM = 0, DK_SYM4, DK_PERIODIC, DK_ZEROS, DK_FF, DK_LONGREP, DK_TEXT, DK_MIXED, DK_RUNS, DK_FARCOPY, DK_SKEW, DK_ADLERMAX, DK_LITCOPY, DK_PAGES, DK_NKINDS };
 std::vector<uint8_t> make_data(const Json &spec);
 // overlay clusters of back-to-back short copies from far back (long distance extra bits, rare length symbols) on d
 void far_copies(uint8_t *d, size_t n, uint64_t seed);
+uint64_t pages_page_size(uint64_t p); // DK_PAGES: page size chosen by the spec's p
 Json gen_data_spec(Rng &r, uint64_t maxlen, int bias = 0);
 void maybe_adler_worst_case(Rng &r, const std::string &focus, Json &data); // C11: now and then the Adler-32 worst case // bias: 0 general, 1 incompressible/empty, 2 long-range repeats around p
 // sizes the I/O seam likes
